@@ -1,4 +1,5 @@
 import DendroModel.Model.C05
+import DendroModel.Theory.C15Build
 import DendroModel.Props.C01
 import DendroModel.Theory.Greedy
 import DendroModel.Theory.FracRat
@@ -2855,5 +2856,543 @@ example : ([(none, exT)] : List (Option Rat × T)) ≠ []
   · intro p hp; simp at hp; subst hp
     exact ⟨by simp [exT, T.toH, T.toHL, Good, GoodL, Hier.mask, Hier.maskL],
       by rw [exStar.2]; simp [exT, T.mask, T.maskL]⟩
+
+end DendroModel.C05
+
+/-! ## last round: not-rooted theorems on namespaces with removed members, the not-rooted bridge for every seed, distinct ids, totality of collapse -/
+namespace DendroModel.C05
+open DendroModel DendroModel.Hier DendroModel.C05.Aux
+
+/-- **Not-rooted majority rule on a namespace with removed members.**  `majority_consensus_unrooted_reaches` with the trees' leaf
+    set `M` (= the star's) only required to be CONTAINED in `all` (the driver's `all` keeps the bits of removed members), `k`
+    the lowest bit of `M` with nothing of `all` below it. -/
+theorem majority_consensus_unrooted_reaches_ns (useW : Bool) (ts : List TreeRec) (m : Rat) (all M k : Nat) (members : List Nat)
+    (hm : 1 / 2 < m) (hw : ∀ t ∈ ts, 0 ≤ wt useW t) (hg : Good (starOf members)) (hall : Hier.mask (starOf members) = M)
+    (hsubAll : bits M ⊆ bits all) (hk : k ∈ bits M) (hlow : ∀ j, j < k → j ∉ bits all)
+    (hts : ∀ t ∈ ts, t.splits.Nodup ∧ ∃ h : Hier.T, Good h ∧ Hier.mask h = M ∧
+              ∀ x : Nat, (x : Int) ∈ t.splits ↔ ∃ c ∈ clades h, x = Hier.norm M (1 <<< k) c) :
+    Good (consensus (countAll useW ts) (some m) all members false)
+    ∧ Hier.mask (consensus (countAll useW ts) (some m) all members false) = M
+    ∧ ∀ x, x ∈ clades (consensus (countAll useW ts) (some m) all members false)
+        ↔ x ∈ clades (starOf members)
+          ∨ (x ≠ 0 ∧ reaches m (freq (countAll useW ts) (x : Int)) ∧ ∃ t ∈ ts, (x : Int) ∈ t.splits) := by
+  -- a normalised split lies inside `all`, avoids bit k and bit 0
+  have hnorm : ∀ t ∈ ts, ∀ n : Nat, (n : Int) ∈ t.splits → n &&& M = n ∧ n &&& all = n ∧ k ∉ bits n ∧ 0 ∉ bits n ∧ n ≠ all := by
+    intro t ht n hs
+    obtain ⟨_, h, _, _, hcl⟩ := hts t ht
+    obtain ⟨c, _, rfl⟩ := (hcl n).mp hs
+    have hsub := norm_sub M k c
+    have hav := norm_avoids M k c
+    refine ⟨(and_eq_left_iff _ _).mpr hsub, (and_eq_left_iff _ _).mpr (hsub.trans hsubAll), hav, ?_, ?_⟩
+    · by_cases hk0 : k = 0
+      · subst hk0; exact hav
+      · exact fun h0 => hlow 0 (Nat.pos_of_ne_zero hk0) (hsubAll (hsub h0))
+    · intro he; rw [he] at hav; exact hav (hsubAll hk)
+  have hcand : ∀ n : Nat, (n : Int) ∈ candidates (countAll useW ts) (some m) →
+      (∃ t ∈ ts, (n : Int) ∈ t.splits) ∧ reaches m (freq (countAll useW ts) (n : Int)) ∧ n &&& M = n ∧ n &&& all = n
+        ∧ 0 ∉ bits n ∧ n ≠ all ∧ (ts.map (wt useW)).sum < 2 * wsum useW ts (n : Int) := by
+    intro n hn
+    obtain ⟨hkk, hr⟩ := (mem_candidates _ _ _).mp hn
+    obtain ⟨t, ht, hs⟩ := (counted_iff useW ts _).mp hkk
+    have hr' : reaches m (freq (countAll useW ts) (n : Int)) := hr
+    obtain ⟨h0', h1, _, h3, h4⟩ := hnorm t ht n hs
+    exact ⟨⟨t, ht, hs⟩, hr', h0', h1, h3, h4, half_of_freq useW ts _ hw ⟨t, ht, hs⟩ (reaches_gt_half m _ hm hr')⟩
+  have hss : ∀ s, s ∈ ((candidates (countAll useW ts) (some m)).map Int.toNat).filterMap (C01.prep all false) ↔
+      ((s : Int) ∈ candidates (countAll useW ts) (some m) ∧ (s - 1) &&& s ≠ 0) := by
+    intro s
+    simp only [List.mem_filterMap, List.mem_map]
+    constructor
+    · rintro ⟨n, ⟨c, hc, rfl⟩, hp⟩
+      by_cases hneg : c < 0
+      · rw [Int.toNat_of_nonpos (le_of_lt hneg), prep_zero] at hp; cases hp
+      · have hc' : ((c.toNat : Nat) : Int) = c := Int.toNat_of_nonneg (not_lt.mp hneg)
+        have hcn : ((c.toNat : Nat) : Int) ∈ candidates (countAll useW ts) (some m) := by rw [hc']; exact hc
+        obtain ⟨_, _, _, hsub, h0, _, _⟩ := hcand c.toNat hcn
+        rw [prep_unrooted_of_sub all c.toNat hsub h0] at hp
+        split at hp
+        · rename_i hcond
+          simp only [Option.some.injEq] at hp
+          subst hp; exact ⟨hcn, hcond.2⟩
+        · cases hp
+    · rintro ⟨hc, h2⟩
+      obtain ⟨_, _, _, hsub, h0, hne, _⟩ := hcand s hc
+      refine ⟨s, ⟨(s : Int), hc, by simp⟩, ?_⟩
+      rw [prep_unrooted_of_sub all s hsub h0]; simp [hne, h2]
+  have hbuild := C01.build_spec (starOf members)
+    (((candidates (countAll useW ts) (some m)).map Int.toNat).filterMap (C01.prep all false)) hg
+    (by
+      intro s hs
+      obtain ⟨hc, h2⟩ := (hss s).mp hs
+      obtain ⟨_, _, hsubM, _, _, _, _⟩ := hcand s hc
+      have hsub' : s &&& Hier.mask (starOf members) = s := by rw [hall]; exact hsubM
+      refine ⟨?_, hsub', compat_star members s hsub'⟩
+      intro h0; subst h0; simp at h2)
+    (by
+      intro s hs b hb
+      obtain ⟨hcs, _⟩ := (hss s).mp hs
+      obtain ⟨hcb, _⟩ := (hss b).mp hb
+      obtain ⟨_, _, _, _, _, _, hhs⟩ := hcand s hcs
+      obtain ⟨_, _, _, _, _, _, hhb⟩ := hcand b hcb
+      obtain ⟨t, ht, h1, h2⟩ := majority_cooccur useW ts s b (fun t ht => (hts t ht).1) hw hhs hhb
+      obtain ⟨_, h, hgh, hmh, hcl⟩ := hts t ht
+      obtain ⟨c1, hc1, rfl⟩ := (hcl s).mp h1
+      obtain ⟨c2, hc2, rfl⟩ := (hcl b).mp h2
+      have hsub1 : bits c1 ⊆ bits M := by rw [← hmh]; exact clades_sub h c1 hc1
+      have hsub2 : bits c2 ⊆ bits M := by rw [← hmh]; exact clades_sub h c2 hc2
+      exact norm_lam M k c1 c2 hsub1 hsub2 (clades_laminar h hgh c1 hc1 c2 hc2))
+  unfold consensus C01.build
+  refine ⟨hbuild.1, hbuild.2.1.trans hall, ?_⟩
+  intro x
+  rw [hbuild.2.2 x, hss x]
+  constructor
+  · rintro (h | ⟨hc, h2⟩)
+    · exact Or.inl h
+    · obtain ⟨hex, hr, _, _, _, _, _⟩ := hcand x hc
+      exact Or.inr ⟨by intro h0; subst h0; simp at h2, hr, hex⟩
+  · rintro (h | ⟨hx0, hr, t, ht, hs⟩)
+    · exact Or.inl h
+    · have hc : (x : Int) ∈ candidates (countAll useW ts) (some m) :=
+        (mem_candidates _ _ _).mpr ⟨(counted_iff useW ts _).mpr ⟨t, ht, hs⟩, hr⟩
+      obtain ⟨hsub, _, _, _, _⟩ := hnorm t ht x hs
+      by_cases h2 : (x - 1) &&& x = 0
+      · left
+        obtain ⟨j, rfl⟩ := single_bit x hx0 h2
+        have hj : j ∈ bits M := (and_eq_left_iff _ _).mp hsub (by rw [bits_shift]; rfl)
+        rw [← hall, mask_star_bits] at hj
+        exact (mem_clades_star members _).mpr (Or.inr ⟨j, hj, rfl⟩)
+      · exact Or.inr ⟨hc, h2⟩
+
+end DendroModel.C05
+
+namespace DendroModel.C05.Aux
+open DendroModel DendroModel.Hier DendroModel.C05
+
+theorem toHL_append (a b : List T) : T.toHL (a ++ b) = T.toHL a ++ T.toHL b := by
+  induction a with
+  | nil => simp [T.toHL]
+  | cons c cs ih => simp [T.toHL, ih]
+
+theorem toH_of_cs {t : T} (h : t.cs ≠ []) : T.toH t = .node (T.toHL t.cs) := by
+  cases t with
+  | node i x l s cs =>
+    cases cs with
+    | nil => simp [T.cs] at h
+    | cons d ds => simp [T.toH, T.cs]
+
+theorem goodL_append_of : ∀ (a b : List Hier.T), GoodL a → GoodL b → maskL a &&& maskL b = 0 → GoodL (a ++ b)
+  | [], b, _, hb, _ => by simpa using hb
+  | c :: cs, b, ha, hb, hd => by
+    simp only [GoodL] at ha
+    simp only [List.cons_append, GoodL]
+    have hd' := (and_eq_zero_iff _ _).mp hd
+    simp only [Hier.maskL, bits_or] at hd'
+    refine ⟨ha.1, ha.2.1, ?_, goodL_append_of cs b ha.2.2.2 hb ?_⟩
+    · rw [maskL_append, and_eq_zero_iff, bits_or, Set.disjoint_union_right]
+      exact ⟨(and_eq_zero_iff _ _).mp ha.2.2.1, (Set.disjoint_union_left.mp hd').1⟩
+    · exact (and_eq_zero_iff _ _).mpr (Set.disjoint_union_left.mp hd').2
+
+/-- opening up the basal bifurcation keeps the mask-labelled tree well formed -/
+theorem collapseBasal_good (t : T) (hg : Good (T.toH t)) : Good (T.toH t.collapseBasal) := by
+  cases t with
+  | node i x l s cs =>
+    match cs, hg with
+    | [], hg => exact hg
+    | [_], hg => exact hg
+    | _ :: _ :: _ :: _, hg => exact hg
+    | [a, b], hg =>
+      simp only [T.toH, T.toHL, Good, GoodL, Hier.maskL, Nat.or_zero] at hg
+      obtain ⟨hga, ha0, hab, hgb, hb0, _, _⟩ := hg
+      simp only [T.collapseBasal]
+      split
+      · rename_i hb
+        have hbne : b.cs ≠ [] := by intro e; rw [e] at hb; simp at hb
+        have eb := toH_of_cs hbne
+        rw [eb] at hgb hab hb0
+        simp only [Good] at hgb
+        simp only [Hier.mask] at hab hb0
+        simp only [T.toH, T.toHL, Good, GoodL, C01.Aux.withLen_toH]
+        exact ⟨hga, ha0, hab, hgb⟩
+      · split
+        · rename_i ha
+          have hane : a.cs ≠ [] := by intro e; rw [e] at ha; simp at ha
+          have ea := toH_of_cs hane
+          rw [ea] at hga hab ha0
+          simp only [Good] at hga
+          simp only [Hier.mask] at hab ha0
+          have : T.toH (T.node i x l s (a.cs ++ [b.withLen (tryAdd b.len a.len)]))
+              = .node (T.toHL a.cs ++ [T.toH b]) := by
+            rw [toH_of_cs (by simp [T.cs]), T.cs, toHL_append]; simp [T.toHL, C01.Aux.withLen_toH]
+          rw [this]
+          simp only [Good]
+          apply goodL_append_of _ _ hga
+          · simp [GoodL, hgb, hb0, Hier.maskL]
+          · simpa [Hier.maskL] using hab
+        · simp only [T.toH, T.toHL, Good, GoodL, Hier.maskL, Nat.or_zero]
+          exact ⟨hga, ha0, hab, hgb, hb0, by simp, trivial⟩
+
+end DendroModel.C05.Aux
+
+namespace DendroModel.C05
+open DendroModel DendroModel.Hier DendroModel.C05.Aux
+
+/-- **Bridge for not-rooted input, every seed.**  For a well-formed tree that is not rooted, whatever its seed looks like as drawn
+    (degree 2: the encoding opens it up; degree 1: the encoding suppresses it), as long as the seed of the ENCODED tree has at
+    least three children — i.e. the tree is outside the known-finding class "basal bifurcation survives the encoding" — the
+    record the driver builds lists every split once, and the splits are exactly the clades of a well-formed hierarchy over the
+    tree's leaf set normalised on its lowest taxon bit `k`: the `hts`, `hk`, `hlow` hypotheses of the not-rooted majority theorems. -/
+theorem treeRecOf_unrooted_hts (r : Option Bool) (w : Option Rat) (t : T) (hr : r ≠ some true) (hg : Good (T.toH t))
+    (h3 : 3 ≤ (C01.encodeTree r true true t).cs.length) :
+    ∃ k, k ∈ bits (T.mask t) ∧ (∀ j, j < k → j ∉ bits (T.mask t))
+      ∧ (treeRecOf r w t).rooted = false
+      ∧ (treeRecOf r w t).splits.Nodup
+      ∧ ∃ h : Hier.T, Good h ∧ Hier.mask h = T.mask t ∧
+          ∀ x : Nat, (x : Int) ∈ (treeRecOf r w t).splits ↔ ∃ c ∈ clades h, x = Hier.norm (T.mask t) (1 <<< k) c := by
+  have hrf : (r == some true) = false := by
+    cases r with
+    | none => rfl
+    | some b => cases b <;> simp_all
+  -- the encoded tree is the suppression of a well-formed tree
+  obtain ⟨u, hu, hgu⟩ : ∃ u : T, C01.encodeTree r true true t = u.sup ∧ Good (T.toH u) := by
+    unfold C01.encodeTree
+    by_cases hc : t.cs.length = 2
+    · exact ⟨t.collapseBasal, by simp [hc, hr], collapseBasal_good t hg⟩
+    · exact ⟨t, by simp [hc], hg⟩
+  have hmt : T.mask (C01.encodeTree r true true t) = T.mask t := C01.encode_keeps_leafset r true true t
+  have hgs : Good (T.toH (C01.encodeTree r true true t)) := by rw [hu, C01.Aux.sup_toH]; exact Hier.sup_good _ hgu
+  have hne2 : (C01.encodeTree r true true t).cs ≠ [] := by intro e; rw [e] at h3; simp at h3
+  have hnode := toH_of_cs hne2
+  have hlen : 3 ≤ (T.toHL (C01.encodeTree r true true t).cs).length := by rw [C01.Aux.toHL_length]; exact h3
+  have hgds : GoodL (T.toHL (C01.encodeTree r true true t).cs) := by rw [hnode] at hgs; simpa [Good] using hgs
+  have hmask : maskL (T.toHL (C01.encodeTree r true true t).cs) = T.mask t := by
+    have := C01.Aux.toH_mask (C01.encodeTree r true true t)
+    rw [hnode, hmt] at this
+    simpa [Hier.mask] using this
+  have hL0 : T.mask t ≠ 0 := by
+    rw [← hmask]
+    match T.toHL (C01.encodeTree r true true t).cs, hgds, hlen with
+    | a :: rest, hgds, _ =>
+      simp only [GoodL] at hgds
+      intro hz
+      obtain ⟨y, hy⟩ := ne_zero_bits hgds.2.1
+      have : y ∈ bits (maskL (a :: rest)) := bits_maskL_subset_of_mem (by simp) hy
+      rw [hz, bits_zero] at this; exact this
+  have hu0 : Hier.mask (T.toH u) ≠ 0 := by
+    have : Hier.mask (T.toH u) = T.mask t := by
+      rw [← Hier.sup_mask, ← C01.Aux.sup_toH, ← hu, C01.Aux.toH_mask, hmt]
+    rw [this]; exact hL0
+  have hnu : NoUnif (T.toH (C01.encodeTree r true true t)) := by
+    rw [hu, C01.Aux.sup_toH]; exact Hier.sup_noUnif _ hgu hu0
+  obtain ⟨k, hk, hkL, hlow⟩ := C01.lsb_spec (T.mask t) (Nat.pos_of_ne_zero hL0)
+  have hs : (treeRecOf r w t).splits
+      = ((C01.encodeTree r true true t).masksPost).map (fun (m : Nat) => ((Hier.norm (T.mask t) (1 <<< k) m : Nat) : Int)) := by
+    show ((C04.edgeRecs r t).map (·.split)) = _
+    unfold C04.edgeRecs
+    simp only [List.map_map]
+    rw [← edgesPost_fst true (C01.encodeTree r true true t), List.map_map]
+    apply List.map_congr_left
+    intro e _
+    simp only [Function.comp, hrf, hmt]
+    rw [C01.split_spec, hk]
+    simp
+  have hmem : ∀ m, m ∈ (C01.encodeTree r true true t).masksPost
+      ↔ m ∈ clades (Hier.T.node (T.toHL (C01.encodeTree r true true t).cs)) := by
+    intro m
+    rw [← hnode, C01.Aux.toH_clades]
+  refine ⟨k, hkL, fun j hj => by simpa [bits] using hlow j hj, by simp [treeRecOf, hrf], ?_,
+    .node (T.toHL (C01.encodeTree r true true t).cs), by simpa [Good] using hgds, by simpa [Hier.mask] using hmask, ?_⟩
+  · rw [hs]
+    have hnd : ((C01.encodeTree r true true t).masksPost).Nodup :=
+      (masksPost_perm _).nodup_iff.mpr (clades_nodup _ hgs hnu)
+    apply List.Nodup.map_on _ hnd
+    intro a ha b hb hab
+    have hab' : Hier.norm (maskL (T.toHL (C01.encodeTree r true true t).cs)) (1 <<< k) a
+        = Hier.norm (maskL (T.toHL (C01.encodeTree r true true t).cs)) (1 <<< k) b := by
+      rw [hmask]; exact_mod_cast hab
+    exact norm_inj_on_clades hgds hlen k a b ((hmem a).mp ha) ((hmem b).mp hb) hab'
+  · intro y
+    rw [hs]
+    simp only [List.mem_map]
+    constructor
+    · rintro ⟨m, hm, hmy⟩
+      exact ⟨m, (hmem m).mp hm, by exact_mod_cast hmy.symm⟩
+    · rintro ⟨c, hc, rfl⟩
+      exact ⟨c, (hmem c).mpr hc, rfl⟩
+
+end DendroModel.C05
+
+namespace DendroModel.C05
+open DendroModel DendroModel.Hier DendroModel.C05.Aux
+/-- hypotheses of `treeRecOf_unrooted_hts` on a seed of degree 2 that the encoding opens up: the not-rooted drawing (0,(1,2,3)) -/
+example : (some false : Option Bool) ≠ some true
+    ∧ Good (T.toH (T.node 0 none none none [.node 1 (some 0) none none [],
+        .node 2 none none none [.node 3 (some 1) none none [], .node 4 (some 2) none none [], .node 5 (some 3) none none []]]))
+    ∧ 3 ≤ (C01.encodeTree (some false) true true (T.node 0 none none none [.node 1 (some 0) none none [],
+        .node 2 none none none [.node 3 (some 1) none none [], .node 4 (some 2) none none [], .node 5 (some 3) none none []]])).cs.length := by
+  refine ⟨by simp, by simp [T.toH, T.toHL, Good, GoodL, Hier.mask, Hier.maskL], ?_⟩
+  simp [C01.encodeTree, T.cs, T.collapseBasal, T.sup, T.supL, T.withLen, tryAdd, addLen, T.len]
+end DendroModel.C05
+
+namespace DendroModel.C05.Aux
+open DendroModel DendroModel.Hier DendroModel.C05
+
+def ids (t : T) : List Nat := (T.nodes t).map T.id
+def idsL (cs : List T) : List Nat := (T.nodesL cs).map T.id
+
+theorem ids_node (i : Nat) (x : Option Nat) (l : Option Frac) (s : Option String) (cs : List T) :
+    ids (.node i x l s cs) = i :: idsL cs := by simp [ids, idsL, T.nodes, T.id]
+theorem idsL_cons (c : T) (cs : List T) : idsL (c :: cs) = ids c ++ idsL cs := by simp [ids, idsL, T.nodesL]
+theorem idsL_nil : idsL [] = [] := rfl
+theorem idsL_append (a b : List T) : idsL (a ++ b) = idsL a ++ idsL b := by
+  induction a with
+  | nil => simp [idsL_nil]
+  | cons c cs ih => simp [idsL_cons, ih]
+theorem ids_withLen (t : T) (l : Option Frac) : ids (t.withLen l) = ids t := by
+  cases t with
+  | node i x l' s cs => simp [T.withLen, ids_node]
+theorem ids_eq (t : T) : ids t = t.id :: idsL t.cs := by
+  cases t with
+  | node i x l s cs => simp [ids_node, T.id, T.cs]
+
+mutual
+theorem sup_ids : ∀ t : T, (ids t.sup).Sublist (ids t)
+  | .node i x l s cs => by
+    have ih := supL_ids cs
+    simp only [T.sup]
+    split
+    · rename_i c hc
+      rw [hc, idsL_cons, idsL_nil, List.append_nil] at ih
+      rw [ids_withLen, ids_node]
+      exact List.Sublist.cons _ ih
+    · rw [ids_node, ids_node]; exact List.Sublist.cons_cons _ ih
+theorem supL_ids : ∀ cs : List T, (idsL (T.supL cs)).Sublist (idsL cs)
+  | [] => by simp [T.supL]
+  | c :: cs => by
+    simp only [T.supL, idsL_cons]
+    exact List.Sublist.append (sup_ids c) (supL_ids cs)
+end
+
+theorem collapseBasal_ids (t : T) : (ids t.collapseBasal).Sublist (ids t) := by
+  cases t with
+  | node i x l s cs =>
+    match cs with
+    | [] => exact List.Sublist.refl _
+    | [_] => exact List.Sublist.refl _
+    | _ :: _ :: _ :: _ => exact List.Sublist.refl _
+    | [a, b] =>
+      simp only [T.collapseBasal]
+      split
+      · simp only [ids_node, idsL_cons, idsL_nil, List.append_nil, ids_withLen]
+        apply List.Sublist.cons_cons
+        apply List.Sublist.append (List.Sublist.refl _)
+        rw [ids_eq b]; exact List.sublist_cons_self _ _
+      · split
+        · simp only [ids_node, idsL_cons, idsL_nil, List.append_nil, ids_withLen, idsL_append]
+          apply List.Sublist.cons_cons
+          apply List.Sublist.append _ (List.Sublist.refl _)
+          rw [ids_eq a]; exact List.sublist_cons_self _ _
+        · exact List.Sublist.refl _
+
+theorem encodeTree_ids (r : Option Bool) (t : T) : (ids (C01.encodeTree r true true t)).Sublist (ids t) := by
+  unfold C01.encodeTree
+  simp only [if_true]
+  split
+  · exact (sup_ids _).trans (collapseBasal_ids t)
+  · exact sup_ids t
+
+mutual
+theorem anyWeakLeaf_false (weak : Nat → Bool) : ∀ t : T,
+    (∀ nd ∈ T.nodes t, nd.cs = [] → weak nd.id = false) → anyWeakLeaf weak t = false
+  | .node i x l s [], h => by
+    simp only [anyWeakLeaf]
+    exact h (.node i x l s []) (by simp [T.nodes]) rfl
+  | .node i x l s (c :: cs), h => by
+    simp only [anyWeakLeaf]
+    exact anyWeakLeafL_false weak (c :: cs) (fun nd hnd => h nd (by simp only [T.nodes, List.mem_cons]; exact Or.inr hnd))
+theorem anyWeakLeafL_false (weak : Nat → Bool) : ∀ cs : List T,
+    (∀ nd ∈ T.nodesL cs, nd.cs = [] → weak nd.id = false) → anyWeakLeafL weak cs = false
+  | [], _ => by simp [anyWeakLeafL]
+  | c :: cs, h => by
+    simp only [anyWeakLeafL, Bool.or_eq_false_iff]
+    exact ⟨anyWeakLeaf_false weak c (fun nd hnd => h nd (by simp only [T.nodesL, List.mem_append]; exact Or.inl hnd)),
+      anyWeakLeafL_false weak cs (fun nd hnd => h nd (by simp only [T.nodesL, List.mem_append]; exact Or.inr hnd))⟩
+end
+
+/-- with distinct ids, a node is flagged iff its own split is below the threshold -/
+theorem weak_iff (sd : SD) (mf : Rat) (r : Option Bool) (t2 : T) (hnd : ((T.nodes t2).map T.id).Nodup) (nd : T) (hm : nd ∈ T.nodes t2) :
+    (weakIdsOf sd mf r t2).contains nd.id = true ↔ freq sd (C01.splitOf (r == some true) (T.mask t2) nd.mask) < mf := by
+  rw [List.contains_iff_mem]
+  unfold weakIdsOf
+  simp only [List.mem_map, List.mem_filter, decide_eq_true_eq]
+  constructor
+  · rintro ⟨nd', ⟨hnd', hlt⟩, hid⟩
+    have : nd' = nd := List.inj_on_of_nodup_map hnd hnd' hm hid
+    rw [this] at hlt; exact hlt
+  · intro hlt; exact ⟨nd, ⟨hm, hlt⟩, rfl⟩
+
+end DendroModel.C05.Aux
+
+namespace DendroModel.C05
+open DendroModel DendroModel.Hier DendroModel.C05.Aux
+
+/-- every tree the driver parses, and its encoded form, has pairwise distinct node ids -/
+theorem parsed_encoded_ids_distinct (toks rest : List String) (t : T) (r : Option Bool)
+    (hp : parseTree toks = some (t, rest)) : ((T.nodes (C01.encodeTree r true true t)).map T.id).Nodup := by
+  obtain ⟨f, par, tax, lens, labs, root, _, rfl, hr⟩ := C15.BuildAux.parseTree_build toks t rest hp
+  have h := C15.BuildAux.ids_nodup par tax lens labs f root (C15.BuildAux.acyc_root par root hr)
+  exact List.Nodup.sublist (encodeTree_ids r _) h
+
+/-- **Collapse on parsed input: exactly the weak internal edges, nothing assumed.**  For every target the driver parses, when
+    `collapseBelow` answers, the internal non-root nodes left are exactly those of the encoded target whose split frequency is
+    at least the threshold (same ids, leaf sets, order), and every root-to-tip distance is kept. -/
+theorem collapse_parsed_exact (toks rest : List String) (t t' : T) (sd : SD) (mf : Rat) (r : Option Bool)
+    (hp : parseTree toks = some (t, rest)) (hc : collapseBelow sd mf r t = some t') :
+    (∀ p, p ∈ innerL t'.cs ↔ (p ∈ innerL (C01.encodeTree r true true t).cs
+        ∧ freq sd (C01.splitOf (r == some true) (T.mask (C01.encodeTree r true true t)) p.2) ≥ mf))
+    ∧ tips 0 t' = tips 0 (C01.encodeTree r true true t) :=
+  ⟨(collapse_removes_exactly sd mf r t t' hc).2.2.2 (parsed_encoded_ids_distinct toks rest t r hp),
+   collapse_keeps_root_tip_parsed toks rest t t' sd mf r hp hc⟩
+
+/-- **When the call answers.**  On parsed input `collapseBelow` answers (does not refuse) whenever no leaf edge of the encoded
+    target is below the threshold — in particular for every threshold ≤ the smallest leaf-split frequency. -/
+theorem collapseBelow_total (toks rest : List String) (t : T) (sd : SD) (mf : Rat) (r : Option Bool)
+    (hp : parseTree toks = some (t, rest))
+    (hleaf : ∀ nd ∈ T.nodes (C01.encodeTree r true true t), nd.cs = [] →
+        freq sd (C01.splitOf (r == some true) (T.mask (C01.encodeTree r true true t)) nd.mask) ≥ mf) :
+    ∃ t', collapseBelow sd mf r t = some t' := by
+  have hnd := parsed_encoded_ids_distinct toks rest t r hp
+  unfold collapseBelow
+  simp only
+  have : anyWeakLeaf (fun i => (weakIdsOf sd mf r (C01.encodeTree r true true t)).contains i) (C01.encodeTree r true true t) = false := by
+    apply anyWeakLeaf_false
+    intro nd hm hcs
+    by_contra hw
+    have hw' : (weakIdsOf sd mf r (C01.encodeTree r true true t)).contains nd.id = true := by simpa using hw
+    have := (weak_iff sd mf r _ hnd nd hm).mp hw'
+    exact absurd (hleaf nd hm hcs) (not_le.mpr this)
+  rw [this]
+  exact ⟨_, rfl⟩
+
+end DendroModel.C05
+
+namespace DendroModel.C05
+open DendroModel DendroModel.Hier DendroModel.C05.Aux
+/-- non-vacuity below the parser (the kernel cannot run `String.toNat?`): the encoded form of the concrete tree `exT` has distinct
+    ids, and with an empty distribution and threshold 0 no leaf edge is below the threshold — the hypotheses under which
+    `collapse_parsed_exact` / `collapseBelow_total` speak -/
+example : ((T.nodes (C01.encodeTree (some true) true true exT)).map T.id).Nodup
+    ∧ ∀ nd ∈ T.nodes (C01.encodeTree (some true) true true exT), nd.cs = [] →
+        freq { useWeights := false } (C01.splitOf ((some true : Option Bool) == some true) (T.mask (C01.encodeTree (some true) true true exT)) nd.mask) ≥ 0 := by
+  refine ⟨List.Nodup.sublist (encodeTree_ids (some true) exT) (by decide), ?_⟩
+  intro nd _ _
+  simp [freq, countOf]
+end DendroModel.C05
+
+namespace DendroModel.C05.Aux
+open DendroModel DendroModel.Hier DendroModel.C05
+
+theorem sum_filter_split (f : TreeRec → Rat) (p : TreeRec → Bool) : ∀ l : List TreeRec,
+    ((l.filter p).map f).sum + ((l.filter (fun t => !p t)).map f).sum = (l.map f).sum
+  | [] => by simp
+  | t :: l => by
+    have ih := sum_filter_split f p l
+    simp only [List.filter_cons]
+    cases hp : p t <;> simp <;> linarith
+
+theorem reaches_one_iff (f : Rat) : reaches 1 f ↔ 1 - (1 : Rat) / 10000000 ≤ f := by
+  unfold reaches C04.absR
+  constructor
+  · rintro (h | ⟨_, h⟩)
+    · linarith
+    · split at h <;> linarith
+  · intro h
+    by_cases h1 : f ≥ 1
+    · exact Or.inl h1
+    · right
+      refine ⟨by norm_num, ?_⟩
+      have : f - 1 < 0 := by linarith
+      simp only [this, if_true]; linarith
+
+end DendroModel.C05.Aux
+
+namespace DendroModel.C05
+open DendroModel DendroModel.Hier DendroModel.C05.Aux
+
+/-- **Strict consensus under arbitrary non-negative weights.**  Threshold exactly 1 (tested by the code with a 1e-7 tolerance),
+    positive total weight, rooted records over a namespace whose `all` contains the members' bits: the consensus holds exactly
+    the star's clades plus the splits for which the total weight of the trees LACKING the split is at most 1e-7 of the total
+    weight — and nothing else is admitted by the tolerance. -/
+theorem strict_consensus_weighted (useW : Bool) (ts : List TreeRec) (all : Nat) (members : List Nat)
+    (hw : ∀ t ∈ ts, 0 ≤ wt useW t) (hW : 0 < (ts.map (wt useW)).sum)
+    (hg : Good (starOf members)) (hsubAll : bits (Hier.mask (starOf members)) ⊆ bits all)
+    (hts : ∀ t ∈ ts, t.splits.Nodup ∧ ∃ h : Hier.T, Good h ∧ Hier.mask h = Hier.mask (starOf members) ∧
+              ∀ x : Nat, (x : Int) ∈ t.splits ↔ x ∈ clades h) :
+    ∀ x, x ∈ clades (consensus (countAll useW ts) (some 1) all members true)
+        ↔ x ∈ clades (starOf members)
+          ∨ ((∃ t ∈ ts, (x : Int) ∈ t.splits)
+              ∧ ((ts.filter (fun t => !decide ((x : Int) ∈ t.splits))).map (wt useW)).sum
+                  ≤ (ts.map (wt useW)).sum / 10000000) := by
+  intro x
+  rw [(majority_consensus_reaches_ns useW ts 1 all members (by norm_num) hw hg hsubAll hts).2.2 x]
+  apply or_congr Iff.rfl
+  constructor
+  · rintro ⟨hr, hex⟩
+    refine ⟨hex, ?_⟩
+    rw [reaches_one_iff, freq_weighted_contains useW ts _ (fun t ht => (hts t ht).1) hex] at hr
+    have hne : (ts.map (wt useW)).sum ≠ 0 := ne_of_gt hW
+    simp only [hne, if_false] at hr
+    rw [le_div_iff₀ hW] at hr
+    have := sum_filter_split (wt useW) (fun t => decide ((x : Int) ∈ t.splits)) ts
+    linarith
+  · rintro ⟨hex, hl⟩
+    refine ⟨?_, hex⟩
+    rw [reaches_one_iff, freq_weighted_contains useW ts _ (fun t ht => (hts t ht).1) hex]
+    have hne : (ts.map (wt useW)).sum ≠ 0 := ne_of_gt hW
+    simp only [hne, if_false]
+    rw [le_div_iff₀ hW]
+    have := sum_filter_split (wt useW) (fun t => decide ((x : Int) ∈ t.splits)) ts
+    linarith
+
+/-- … hence, when every tree's weight exceeds 1e-7 of the total, exactly the splits present in EVERY tree -/
+theorem strict_consensus_weighted_exact (useW : Bool) (ts : List TreeRec) (all : Nat) (members : List Nat)
+    (hbig : ∀ t ∈ ts, (ts.map (wt useW)).sum / 10000000 < wt useW t) (hW : 0 < (ts.map (wt useW)).sum)
+    (hg : Good (starOf members)) (hsubAll : bits (Hier.mask (starOf members)) ⊆ bits all)
+    (hts : ∀ t ∈ ts, t.splits.Nodup ∧ ∃ h : Hier.T, Good h ∧ Hier.mask h = Hier.mask (starOf members) ∧
+              ∀ x : Nat, (x : Int) ∈ t.splits ↔ x ∈ clades h) :
+    ∀ x, x ∈ clades (consensus (countAll useW ts) (some 1) all members true)
+        ↔ x ∈ clades (starOf members) ∨ ((∃ t ∈ ts, (x : Int) ∈ t.splits) ∧ ∀ t ∈ ts, (x : Int) ∈ t.splits) := by
+  have hpos : ∀ t ∈ ts, 0 ≤ wt useW t := by
+    intro t ht
+    have : 0 < (ts.map (wt useW)).sum / 10000000 := by positivity
+    linarith [hbig t ht]
+  intro x
+  rw [strict_consensus_weighted useW ts all members hpos hW hg hsubAll hts x]
+  apply or_congr Iff.rfl
+  apply and_congr_right
+  intro _
+  constructor
+  · intro hl t ht
+    by_contra hx
+    have hmem : t ∈ ts.filter (fun t => !decide ((x : Int) ∈ t.splits)) := by simp [List.mem_filter, ht, hx]
+    have hge : wt useW t ≤ ((ts.filter (fun t => !decide ((x : Int) ∈ t.splits))).map (wt useW)).sum := by
+      apply List.single_le_sum
+      · intro y hy
+        obtain ⟨t', ht', rfl⟩ := List.mem_map.mp hy
+        exact hpos t' (List.mem_filter.mp ht').1
+      · exact List.mem_map.mpr ⟨t, hmem, rfl⟩
+    linarith [hbig t ht]
+  · intro hall'
+    have : ts.filter (fun t => !decide ((x : Int) ∈ t.splits)) = [] := by
+      apply List.filter_eq_nil_iff.mpr
+      intro t ht; simp [hall' t ht]
+    rw [this]; simp
+    positivity
+
+/-- hypotheses of the weighted strict-consensus theorems: two copies of (0,(1,2)) with weights 1/2 and 2 -/
+example : (∀ t ∈ [{ exRec with weight := some (1 / 2) }, { exRec with weight := some 2 }],
+      ([{ exRec with weight := some (1 / 2) }, { exRec with weight := some 2 }].map (wt true)).sum / 10000000 < wt true t)
+    ∧ 0 < ([{ exRec with weight := some (1 / 2) }, { exRec with weight := some 2 }].map (wt true)).sum := by
+  constructor
+  · intro t ht; simp at ht; rcases ht with rfl | rfl <;> norm_num [wt]
+  · norm_num [wt]
 
 end DendroModel.C05
